@@ -19,6 +19,7 @@ import (
 	"strconv"
 	"strings"
 	"sync"
+	"sync/atomic"
 	"testing"
 	"time"
 
@@ -449,9 +450,9 @@ func (w *vHWorld) sample() vHSample {
 	w.safeInstant()
 	s := vHSample{events: len(w.events)}
 	for _, p := range w.peerOf {
-		s.fails = append(s.fails, p.fails)
-		s.unh = append(s.unh, p.unhealthy)
-		s.conns = append(s.conns, p.numConns)
+		s.fails = append(s.fails, atomic.LoadInt32(&p.fails))
+		s.unh = append(s.unh, atomic.LoadInt32(&p.unhealthy))
+		s.conns = append(s.conns, atomic.LoadInt32(&p.numConns))
 	}
 	for ui, u := range w.h.Upstreams {
 		s.avail = append(s.avail, u.available())
